@@ -10,8 +10,10 @@ behaviour stated directly on the file system.
 """
 from __future__ import annotations
 
+import contextlib
 import itertools
 import json
+import math
 import os
 import shutil
 import tempfile
@@ -53,12 +55,49 @@ def cres_unit(call):
     return "(Ok tt)", "ok"
 
 
-def mk_gbox(shape, rotated=False, crs="epsg:32633"):
+def mk_gbox(shape, rotated=False, crs="epsg:32633", transform=None):
     from affine import Affine
     from odc.geo.geobox import GeoBox
 
     tr = Affine(3.0, 4.0, 10.0, 4.0, -3.0, 50.0) if rotated else Affine(4.0, 0.0, 1000.0, 0.0, -4.0, 2000.0)
+    if transform is not None:
+        tr = Affine(*transform)
     return GeoBox(tuple(shape), tr, crs)
+
+
+def small_pixel_transform(pixel, angle_deg=0.0, shear=0.0, origin=(12.5, 47.25)):
+    """rotated / sheared grid with a small pixel size in CRS units (degrees): plain trigonometry, no odc.geo helper"""
+    import math
+
+    a = math.radians(angle_deg)
+    ca, sa = math.cos(a), math.sin(a)
+    # translation * rotation(angle) * shear * scale(pixel, -pixel)
+    m00, m01 = pixel * ca, pixel * (sa - shear * ca)
+    m10, m11 = pixel * sa, -pixel * (ca + shear * sa)
+    return [m00, m01, origin[0], m10, m11, origin[1]]
+
+
+@contextlib.contextmanager
+def ambient_gdal(cfg):
+    """ambient GDAL configuration around a write: an enclosing rasterio.Env and / or os.environ"""
+    import rasterio
+
+    saved = {}
+    for k, v in (cfg.get("os_env") or {}).items():
+        saved[k] = os.environ.get(k)
+        os.environ[k] = str(v)
+    try:
+        if cfg.get("gdal_env"):
+            with rasterio.Env(**cfg["gdal_env"]):
+                yield
+        else:
+            yield
+    finally:
+        for k, v in saved.items():
+            if v is None:
+                os.environ.pop(k, None)
+            else:
+                os.environ[k] = v
 
 
 def read_mem(buf):
@@ -310,7 +349,7 @@ def make_image(cfg):
         H, W = H + 3, W + 5
     dt = np.dtype(cfg["dtype"])
     spec = cfg.get("crs", "epsg:32633")
-    g = mk_gbox((H, W), rotated=cfg.get("rotated", False), crs=spec)
+    g = mk_gbox((H, W), rotated=cfg.get("rotated", False), crs=spec, transform=cfg.get("transform"))
     yy, xx = np.meshgrid(np.arange(H), np.arange(W), indexing="ij")
     planes = []
     for b in range(B if lay != "YX" else 1):
@@ -437,7 +476,7 @@ def roundtrip_pass(cfg, xx, g, bands, want_tr, ref_crs, kw, ext):
     work = None
     msgs = []
     try:
-        with warnings.catch_warnings():
+        with warnings.catch_warnings(), ambient_gdal(cfg):
             warnings.simplefilter("ignore")
             if cfg.get("dest", "mem") == "mem":
                 buf = R.to_cog(xx, **kw)
@@ -458,7 +497,14 @@ def roundtrip_pass(cfg, xx, g, bands, want_tr, ref_crs, kw, ext):
         elif not np.array_equal(r["pix"], bands):
             bad = np.argwhere(r["pix"] != bands)[0].tolist()
             msgs.append(f"band {bad[0] + 1} row {bad[1]} col {bad[2]}: read {r['pix'][tuple(bad)]!r}, wrote {bands[tuple(bad)]!r}")
-        if r["transform"] != want_tr:
+        if cfg.get("transform") is not None:
+            # small pixels: judge by how far the image corners move, in pixels of the input grid
+            from affine import Affine
+            a_in, a_got = Affine(*want_tr), Affine(*r["transform"])
+            moved = max(math.hypot(*(p - q for p, q in zip(~a_in * (a_got * c), c))) for c in [(0, 0), (W, 0), (0, H), (W, H)])
+            if not moved <= 1e-6:
+                msgs.append(f"transform {r['transform']} != {want_tr}: image corners move by up to {moved:.3g} px")
+        elif r["transform"] != want_tr:
             msgs.append(f"transform {r['transform']} != {want_tr}")
         got_crs = None if r["crs"] is None else pyproj.CRS.from_wkt(r["crs"].to_wkt())
         if got_crs is None or not got_crs.equals(ref_crs, ignore_axis_order=True):
@@ -616,6 +662,21 @@ def roundtrip_configs(tier):
         dict(base, crs=CUSTOM_CRS[6], history=["epsg"]),
         dict(base, crs="epsg:3577", history=["epsg", "str_hash"], rewrite_after=["geobox"]),
         dict(base, crs=CUSTOM_CRS[0], history=["epsg"], H=16, W=24, external_overviews=[2]),
+        # rotated / sheared grids with SMALL pixels in CRS units (degrees): the rotation must survive
+        *[dict(dict(base, H=30, W=40, crs="epsg:4326", dtype="uint8", transform=small_pixel_transform(px, ang, sh)), **extra)
+          for px, ang, sh, extra in [(1e-4, 3.0, 0.0, {}), (1e-5, 3.0, 0.0, {"dest": "file"}), (1e-5, 0.5, 0.0, {"layout": "BYX", "B": 2}),
+                                     (1e-6, 3.0, 0.0, {}), (1e-6, 30.0, 0.0, {"overview_levels": [2]}), (1e-7, 1.0, 0.0, {}),
+                                     (1e-5, 0.0, 0.2, {}), (1e-6, 0.0, -0.05, {"layout": "YXB", "B": 2}), (1e-7, 10.0, 0.1, {"dest": "file"}),
+                                     (3e-4, 0.2, 0.0, {"H": 300, "W": 400})]],
+        dict(base, H=30, W=40, crs=CUSTOM_CRS[6], transform=small_pixel_transform(1e-5, 2.0)),
+        # the result must not depend on the ambient GDAL configuration (enclosing rasterio.Env / os.environ)
+        *[dict(base, H=64, W=96, blocksize=32, **what, **env)
+          for what in [{"external_overviews": [2, 4]}, {"external_overviews": [2], "dest": "file", "layout": "BYX", "B": 2},
+                       {"overview_levels": [2, 4]}, {"dest": "file"}]
+          for env in [{"gdal_env": {"GDAL_DISABLE_READDIR_ON_OPEN": "EMPTY_DIR"}}, {"os_env": {"GDAL_DISABLE_READDIR_ON_OPEN": "EMPTY_DIR"}},
+                      {"gdal_env": {"GDAL_DISABLE_READDIR_ON_OPEN": "TRUE"}},
+                      {"gdal_env": {"GDAL_CACHEMAX": 1, "GDAL_NUM_THREADS": 2, "CPL_VSIL_CURL_ALLOWED_EXTENSIONS": ".tif"}},
+                      {"os_env": {"GDAL_NUM_THREADS": "ALL_CPUS", "VSI_CACHE": "TRUE", "GDAL_TIFF_OVR_BLOCKSIZE": "256"}}]],
         # images exactly two pixels tall / wide; arrays whose registration lives in the coordinate labels only
         dict(base, H=2, W=32), dict(base, H=32, W=2, layout="BYX", B=2), dict(base, H=2, W=2, dtype="uint8"),
         dict(base, H=2, W=32, derive="stride2"),
@@ -696,7 +757,12 @@ def roundtrip_configs(tier):
             c[rng.choice(["history", "rewrite_after"])] = rng.choice(HISTORIES)
         elif r2 < 0.3:
             c["crs"] = rng.choice(["epsg:4326", "epsg:3577", "epsg:3857"])
-        if rng.random() < 0.25 and min(c["H"], c["W"]) >= 2:
+        if r2 >= 0.3 and rng.random() < 0.15 and min(c["H"], c["W"]) >= 2:
+            c["crs"] = "epsg:4326"
+            c["rotated"] = False
+            c["transform"] = small_pixel_transform(rng.choice([1e-4, 1e-5, 1e-6, 1e-7]), rng.choice([0.5, 1.0, 3.0, 45.0]),
+                                                   rng.choice([0.0, 0.0, 0.1]))
+        elif rng.random() < 0.25 and min(c["H"], c["W"]) >= 2:
             c["derive"] = rng.choice(["stride2", "coarsen2", "slice", "handbuilt"])
             c["rotated"] = False
             if rng.random() < 0.4:
@@ -725,6 +791,9 @@ def roundtrip_configs(tier):
                 c["blocksize"] = 16                         # several blocks per image
         if rng.random() < 0.15:
             c["intermediate_compression"] = rng.choice([True, "deflate", "zstd"])
+        if rng.random() < 0.2:
+            c[rng.choice(["gdal_env", "os_env"])] = rng.choice([{"GDAL_DISABLE_READDIR_ON_OPEN": "EMPTY_DIR"}, {"GDAL_DISABLE_READDIR_ON_OPEN": "TRUE"},
+                                                                 {"GDAL_CACHEMAX": 1}, {"GDAL_NUM_THREADS": 2}])
         cfgs.append(c)
     return cfgs
 
